@@ -60,4 +60,78 @@ def Map.replaceFused (m : Map) (k : Nat) (o : Orc) : Except Fault (Map × Option
     | .error f => .error f
     | .ok (m', _) => .ok (m', some e)
 
+/-! ### whole calls with a fuse (what the fault lock-step replays) -/
+
+/-- griddle's `insert_no_grow` whose `carry` runs with a fused `Hash`. -/
+def Raw.insertNoGrowFused (c : Cfg) (t : Raw) (e : Entry) (fuse : Nat) (hits : Hits) :
+    Except Fault (Raw × Option Entry) :=
+  match t.main.insertNoGrow e (decide (0 < hits)) with
+  | .error f => .error f
+  | .ok m =>
+    let t' : Raw := { t with main := m }
+    if t'.lo.isSome then Raw.carryFused c t' fuse (hits - 1) else .ok (t', none)
+
+/-- `RawTable::insert` (key absent) whose `carry` runs with a fused `Hash`; growing hashes nothing. -/
+def Raw.insertFused (c : Cfg) (t : Raw) (e : Entry) (fuse : Nat) (hits : Hits) (perm : List Nat) :
+    Except Fault (Raw × Option Entry × Cost) :=
+  if t.main.gl = 0 then
+    if t.lo.isSome then .error (.panic .assertLeftovers)
+    else match Raw.grow c t 1 perm with
+      | .error f => .error f
+      | .ok (t', gc) =>
+        match Raw.insertNoGrowFused c t' e fuse hits with
+        | .error f => .error f
+        | .ok (t'', lost) => .ok (t'', lost, gc)
+  else
+    match Raw.insertNoGrowFused c t e fuse hits with
+    | .error f => .error f
+    | .ok (t'', lost) => .ok (t'', lost, {})
+
+/-- `HashMap::insert(k, v)` under a `Hash` implementation that panics on its `fuse`-th invocation
+    within the call.  Invocation 0 hashes the key handed in — nothing has happened yet, the pair is
+    dropped by the unwinding; invocations 1, 2, … are `carry`'s re-hashes, after the insertion (or
+    the value replacement) itself.  The `Bool` says whether the fuse fired; if it did not, the call
+    is the ordinary `Map.insert`. -/
+def Map.insertFused (c : Cfg) (m : Map) (e : Entry) (fuse : Nat) (o : Orc) : Except Fault (Map × Out × Bool) :=
+  let plain : Except Fault (Map × Out × Bool) :=
+    match Map.insert c m e o with
+    | .error f => .error f
+    | .ok (m', out) => .ok (m', out, false)
+  if fuse = 0 then .ok (m, { cost := { hashes := 1, dropped := e.ids } }, true)
+  else
+    match m.find e.k with
+    | some (loc, old) =>
+      if loc.inMain then plain
+      else
+        let m1 : Map := { m with lo := m.lo.map (fun ol => { ol with ents := ol.ents.map (fun x =>
+                  if x.k == e.k then { x with v := e.v, vid := e.vid } else x) }) }
+        if c.debug && !m1.isSplit then .error (.panic .debugAssert)
+        else match Raw.carryFused c m1 (fuse - 1) o.hits with
+          | .error f => .error f
+          | .ok (m2, some lost) =>
+            -- the key handed in, the replaced value (a local by now) and the element in flight
+            .ok (m2, { cost := { hashes := fuse + 1, moved := fuse - 1,
+                                 dropped := e.kid :: old.vid :: lost.ids } }, true)
+          | .ok (_, none) => plain
+    | none =>
+      match Raw.insertFused c m e (fuse - 1) o.hits o.perm with
+      | .error f => .error f
+      | .ok (m2, some lost, gc) =>
+        .ok (m2, { cost := gc + { hashes := fuse + 1, moved := fuse - 1, dropped := lost.ids } }, true)
+      | .ok (_, none, _) => plain
+
+/-- `retain(f)` whose closure panics on entering its `fuse`-th call (before touching the value). -/
+def Map.retainFusedOut (m : Map) (p : Pred) (fuse : Nat) (o : Orc) : Except Fault (Map × Out × Bool) :=
+  match Map.retainFused m p fuse o with
+  | .error f => .error f
+  | .ok (m', cost) => .ok (m', { cost := cost }, decide (fuse < o.calls.length))
+
+/-- `entry(k)` then `replace_entry_with(f)` on the occupied entry, `f` panicking: the element was
+    taken out of its bucket for `f` and is dropped by the unwinding, with the key handed to `entry`. -/
+def Map.replaceFusedOut (m : Map) (k kid : Nat) (o : Orc) : Except Fault (Map × Out × Bool) :=
+  match Map.replaceFused m k o with
+  | .error f => .error f
+  | .ok (m', some e) => .ok (m', { cost := { hashes := 1, dropped := kid :: e.ids } }, true)
+  | .ok (m', none) => .ok (m', { cost := { hashes := 1, dropped := [kid] } }, false)
+
 end Griddle
